@@ -656,6 +656,8 @@ class Sym(Exec):
         for _round in range(4):
             s = st.clone()
             self.havoc(s, mods, "dry")
+            if getattr(spec, "havoc_hook", None) is not None:
+                spec.havoc_hook(self, s)
             s.log = set()
             saved = (self.decisions, self.dpos, self.nofork, len(self.obligations), self.check_defined)
             newm = set()
